@@ -151,6 +151,10 @@ class SimTable(object):
         self.clock = None
         self.latency = None
         self.npasses = 0
+        # one-shot callback run just before row `index` is handed out (the
+        # source calls back into the application: a nested pass over the
+        # view under test while one of its iterators is in mid-step)
+        self.hook = None
 
     # petl calls header(), look() etc. through iter()
     def __iter__(self):
@@ -193,6 +197,11 @@ class SimTable(object):
         i = 0
         while True:
             self._maybe_fail(i)
+            if self.hook is not None and self.hook[0] == i:
+                fn = self.hook[1]
+                self.hook = None
+                CTX.fire('reentrant-callback')
+                fn()
             if i >= len(rows):
                 return
             if i > 0 and self.poison is not None and i > self.poison:
